@@ -136,7 +136,7 @@ func main() {
 		add([]string{"d", "e"}, progs("L", "T", "C"), -1, vsched.Config{P: 2, Preempt: fine, MaxSteps: 5000})
 		add([]string{"d"}, progs("L", "T", "C"), 0, vsched.Config{P: 1, Preempt: fine, MaxSteps: 5000})
 		bounds["tiers"] = "2 workers {L,T,C,X}^2 P<=3; 9-program alphabet P<=2; Shutdown P<=2; 3 workers P<=2 (topologies d,e), with Shutdown P<=1"
-		budget = 25 * time.Minute
+		budget = 12 * time.Minute
 	}
 	weight := func(j sdrv.Job) int { return j.Cfg.P*100 + 10*strings.Count(j.Name, "C") + len(j.Name) }
 	sort.SliceStable(jobs, func(a, b int) bool { return weight(jobs[a]) > weight(jobs[b]) })
